@@ -6,6 +6,9 @@ import NA.Core.IOUtil
 
 * `cmp␞DEV␞SPOC`      model of `drc -q DEV SPOC` →
                       `OK␞route lines␞candidate iptables lines␞rest of the script` or `ERR␞message`
+* `dev␞IPTSAVE␞IPROUTESHOW␞SPOC`   model of the device path (`LoadDevice` text handling + `GetChanges`): same answer format
+* `rexec␞DEVROUTES␞CMDS␞TGTLINES`   specification side: execute single `ip route` commands (␟-separated) on the kernel
+                      table → `ok|fail␞route show lines afterwards␞converged(0|1)␞routes in DEVROUTES encoding`
 * `norm␞k␟v␟k␟v…`     model of `normalizeIPTables` → pairs sorted by key `k␟v␟…`
 * `pairs␞RULESET`     model of `parseIPTables`: `table␟chain␟i␟k=v,k=v…` records joined by ␞ (sorted), or `ERR␞…`
 * `mk␞names␞DEVROUTES␞DEVRS␞TGTRS`   specification side: what the device prints (`ip route show` lines with
@@ -119,6 +122,19 @@ def devText (cfg : KCfg) (routes : List (Spec.RKey × Option Str)) (rs : AState)
 open NA.Linux.Spec in
 def specAnswer (fs : List Str) : Option Str :=
   match fs with
+  | [c, dr, cmds, tgt] =>
+    if c = s "rexec" then do
+      let devR := parseDevRoutes dr
+      let cl ← (splitOn1 cmds LS).mapM readRouteCmd
+      let tgtK := ((splitOn1 tgt LS).filterMap readRouteCmd).filterMap fun c => match c with | .add k => some k | _ => none
+      match execLine (devR.map (·.1)) cl with
+      | none => some (joinFS [s "fail", [], s "0"])
+      | some t =>
+        let newR := t.map fun k => (k, (devR.find? (·.1 = k)).bind (·.2))
+        let enc := newR.map fun (k, d) => joinLS [k.1, (toString k.2.1).toList, k.2.2, d.getD []]
+        some (joinFS [s "ok", joinLS (newR.map fun (k, d) => routeShow k d),
+          if sameSet t tgtK && noDup t then s "1" else s "0", joinWith [GS] enc])
+    else none
   | [c, names, dr, drs, trs] =>
     if c = s "mk" then do
       let cfg : KCfg := { protoNames := isT names }
@@ -161,6 +177,14 @@ def specAnswer (fs : List Str) : Option Str :=
 def answer (line : String) : String :=
   let fs := splitChar line.toList FS
   Str.toS <| match fs with
+  | [c, ipt, ro, spoc] =>
+    if c = s "dev" then
+      match compareDevice (unl ipt) (unl ro) (unl spoc) with
+      | .error e => joinFS [s "ERR", nl e]
+      | .ok ch =>
+        let (r, c, rest) := ch.show
+        joinFS [s "OK", joinLS r, joinLS c, joinLS rest]
+    else (specAnswer fs).getD (s "bad-input")
   | [c, dev, spoc] =>
     if c = s "cmp" then
       match compareFiles (unl dev) (unl spoc) with
